@@ -1,10 +1,18 @@
 import ArimModel.TimeDomain
+import ArimProofs.Lemmas.TimeDomain
+import ArimProofs.C10
 import Mathlib.Tactic.Ring
+import Mathlib.Tactic.Positivity
+import Mathlib.Tactic.NormNum
 import Mathlib.Algebra.Order.Floor.Ring
 import Mathlib.Data.Rat.Floor
+import Mathlib.Data.List.Rotate
 /-! # C11 — time-domain synthesis places each echo at its delay with the right waveform -/
 namespace Arim.C11
-open Arim.TD
+open Arim.TD Arim.TDLemmas
+open scoped Real
+
+/-! ## Splitting a delay -/
 
 /-- **The split of a delay is exact for every integer quotient**: `q·dt + (delay − q·dt) = delay`
 (in particular for `q = ⌊delay/dt⌋`, the number of whole samples) -/
@@ -39,4 +47,832 @@ theorem split_mod_counter :
 /-- in double arithmetic `8.0 / 0.1` is exactly `80.0` -/
 theorem float_quotient_is_80 : ((8.0 : Float) / 0.1).toBits = (80.0 : Float).toBits := by decide +kernel
 
+
+/-! ## 1. Toneburst shape -/
+
+section shape
+variable {K : Type}
+
+/-- **the pulse length is odd** (so the pulse has a centre sample), for any scalar model -/
+theorem lenPulse_odd [Div K] (t : RT K) (cycles : ℕ) (f dt : K) :
+    lenPulse t cycles f dt % 2 = 1 := by
+  unfold lenPulse
+  simp only [beq_iff_eq]
+  split_ifs with h <;> omega
+
+/-- the pulse covers at least `⌈cycles / f / dt⌉` samples -/
+theorem lenPulse_ge [Div K] (t : RT K) (cycles : ℕ) (f dt : K) :
+    (t.ceil (t.ofNat cycles / f / dt)).toNat ≤ lenPulse t cycles f dt := by
+  unfold lenPulse
+  simp only [beq_iff_eq]
+  split_ifs with h <;> omega
+
+/-- … and at most one more -/
+theorem lenPulse_le [Div K] (t : RT K) (cycles : ℕ) (f dt : K) :
+    lenPulse t cycles f dt ≤ (t.ceil (t.ofNat cycles / f / dt)).toNat + 1 := by
+  unfold lenPulse
+  simp only [beq_iff_eq]
+  split_ifs with h <;> omega
+
+/-- the pulse is never empty -/
+theorem lenPulse_pos [Div K] (t : RT K) (cycles : ℕ) (f dt : K) :
+    1 ≤ lenPulse t cycles f dt := by
+  have := lenPulse_odd t cycles f dt
+  omega
+end shape
+
+/-- `np.hanning(1) = [1]` (and the model's convention for `m = 0`) -/
+theorem hann_one (m k : ℕ) (hm : m ≤ 1) : hann tR m k = 1 := by
+  simp [hann, hm]
+
+/-- the Hann window over the reals -/
+theorem hann_eq (m k : ℕ) (hm : 2 ≤ m) :
+    hann tR m k = 1 / 2 - 1 / 2 * Real.cos (2 * π * k / ((m - 1 : ℕ) : ℝ)) := by
+  have : ¬ m ≤ 1 := by omega
+  simp [hann, this]
+
+/-- **the window is symmetric** -/
+theorem hann_symm (m k : ℕ) (hk : k < m) : hann tR m k = hann tR m (m - 1 - k) := by
+  rcases Nat.lt_or_ge m 2 with hm | hm
+  · rw [hann_one m _ (by omega), hann_one m _ (by omega)]
+  · rw [hann_eq m _ hm, hann_eq m _ hm]
+    have hne : (((m - 1 : ℕ)) : ℝ) ≠ 0 := by
+      have : m - 1 ≠ 0 := by omega
+      exact_mod_cast this
+    have hc : (((m - 1 - k : ℕ)) : ℝ) = ((m - 1 : ℕ) : ℝ) - k := by
+      rw [Nat.cast_sub (by omega)]
+    have : 2 * π * ((m - 1 - k : ℕ) : ℝ) / ((m - 1 : ℕ) : ℝ) = 2 * π - 2 * π * k / ((m - 1 : ℕ) : ℝ) := by
+      rw [hc]; field_simp
+    rw [this, Real.cos_two_pi_sub]
+
+/-- the window vanishes at both ends (for `m ≥ 2`; `np.hanning(1) = [1]`) -/
+theorem hann_ends (m : ℕ) (hm : 2 ≤ m) : hann tR m 0 = 0 ∧ hann tR m (m - 1) = 0 := by
+  have h0 : hann tR m 0 = 0 := by
+    rw [hann_eq m _ hm]; simp
+  refine ⟨h0, ?_⟩
+  have := hann_symm m 0 (by omega)
+  rw [Nat.sub_zero] at this
+  rw [← this, h0]
+
+/-- an odd-length window is `1` at its centre sample: `m − 1 = 2 (m/2)`, `cos π = −1` -/
+theorem hann_centre (m : ℕ) (hodd : m % 2 = 1) : hann tR m (m / 2) = 1 := by
+  rcases Nat.lt_or_ge m 2 with hm | hm
+  · exact hann_one m _ (by omega)
+  · rw [hann_eq m _ hm]
+    have e : m - 1 = 2 * (m / 2) := by omega
+    have hne : ((m / 2 : ℕ) : ℝ) ≠ 0 := by
+      have : m / 2 ≠ 0 := by omega
+      exact_mod_cast this
+    have : 2 * π * ((m / 2 : ℕ) : ℝ) / ((m - 1 : ℕ) : ℝ) = π := by
+      rw [e]; push_cast; field_simp
+    rw [this, Real.cos_pi]; norm_num
+
+/-- the window takes values in `[0, 1]` (for every index, also outside `k < m`) -/
+theorem hann_range (m k : ℕ) : 0 ≤ hann tR m k ∧ hann tR m k ≤ 1 := by
+  rcases Nat.lt_or_ge m 2 with hm | hm
+  · rw [hann_one m _ (by omega)]; norm_num
+  · rw [hann_eq m _ hm]
+    have h1 := Real.cos_le_one (2 * π * k / ((m - 1 : ℕ) : ℝ))
+    have h2 := Real.neg_one_le_cos (2 * π * k / ((m - 1 : ℕ) : ℝ))
+    constructor <;> linarith
+
+/-- the pulse over the reals: window times `e^{2πi dt f (k − half)}` -/
+theorem pulse_eq (cycles : ℕ) (f dt : ℝ) (k : ℕ) :
+    pulse tR cycles f dt k =
+      (hann tR (lenPulse tR cycles f dt) k
+          * Real.cos (2 * π * dt * f * ((k : ℝ) - ((lenPulse tR cycles f dt / 2 : ℕ) : ℝ))),
+       hann tR (lenPulse tR cycles f dt) k
+          * Real.sin (2 * π * dt * f * ((k : ℝ) - ((lenPulse tR cycles f dt / 2 : ℕ) : ℝ)))) := by
+  simp only [pulse, csmul, cis, tR_cos, tR_sin, tR_pi, tR_ofNat, tR_ofInt, Int.cast_sub,
+    Int.cast_natCast, Nat.cast_ofNat]
+
+/-- the analytic pulse as a complex number -/
+theorem toC_pulse (cycles : ℕ) (f dt : ℝ) (k : ℕ) :
+    toC (pulse tR cycles f dt k) =
+      ((hann tR (lenPulse tR cycles f dt) k : ℝ) : ℂ)
+        * Complex.exp (2 * π * Complex.I * (dt * f * ((k : ℂ) - ((lenPulse tR cycles f dt / 2 : ℕ) : ℂ)))) := by
+  unfold pulse
+  simp only [toC_csmul, toC_cis]
+  congr 2
+  simp only [tR_pi, tR_ofNat, tR_ofInt, Int.cast_sub, Int.cast_natCast, Nat.cast_ofNat,
+    Complex.ofReal_mul, Complex.ofReal_sub, Complex.ofReal_natCast, Complex.ofReal_ofNat]
+  ring
+
+/-- **the toneburst is symmetric about its centre sample**: the real part (the real toneburst)
+is even, the imaginary part is odd -/
+theorem pulse_symm (cycles : ℕ) (f dt : ℝ) (k : ℕ) (hk : k < lenPulse tR cycles f dt) :
+    (pulse tR cycles f dt (lenPulse tR cycles f dt - 1 - k)).1 = (pulse tR cycles f dt k).1 ∧
+    (pulse tR cycles f dt (lenPulse tR cycles f dt - 1 - k)).2 = -(pulse tR cycles f dt k).2 := by
+  have hodd := lenPulse_odd tR cycles f dt
+  rw [pulse_eq, pulse_eq]
+  set l := lenPulse tR cycles f dt with hl
+  have e : ((l - 1 - k : ℕ) : ℝ) - ((l / 2 : ℕ) : ℝ) = -((k : ℝ) - ((l / 2 : ℕ) : ℝ)) := by
+    have : ((l - 1 - k : ℕ) : ℤ) - ((l / 2 : ℕ) : ℤ) = -((k : ℤ) - ((l / 2 : ℕ) : ℤ)) := by omega
+    exact_mod_cast congrArg (Int.cast : ℤ → ℝ) this
+  simp only
+  rw [e, ← hann_symm l k hk, mul_neg, Real.cos_neg, Real.sin_neg, mul_neg]
+  exact ⟨rfl, rfl⟩
+
+/-- **the centre sample is exactly one** (`cos 0 = 1`, `sin 0 = 0`, window `= 1`): the pulse is
+centred on its time zero with unit peak -/
+theorem pulse_peak (cycles : ℕ) (f dt : ℝ) :
+    pulse tR cycles f dt (lenPulse tR cycles f dt / 2) = (1, 0) := by
+  rw [pulse_eq, hann_centre _ (lenPulse_odd tR cycles f dt)]
+  simp
+
+/-- … and nowhere larger: real and imaginary parts are bounded by one -/
+theorem pulse_re_le_one (cycles : ℕ) (f dt : ℝ) (k : ℕ) :
+    |(pulse tR cycles f dt k).1| ≤ 1 ∧ |(pulse tR cycles f dt k).2| ≤ 1 := by
+  rw [pulse_eq]
+  obtain ⟨h0, h1⟩ := hann_range (lenPulse tR cycles f dt) k
+  simp only [abs_mul, abs_of_nonneg h0]
+  constructor
+  · exact mul_le_one₀ h1 (abs_nonneg _) (Real.abs_cos_le_one _)
+  · exact mul_le_one₀ h1 (abs_nonneg _) (Real.abs_sin_le_one _)
+
+/-- modulus of the analytic pulse is the window -/
+theorem pulse_abs (cycles : ℕ) (f dt : ℝ) (k : ℕ) :
+    ‖toC (pulse tR cycles f dt k)‖ = hann tR (lenPulse tR cycles f dt) k := by
+  rw [toC_pulse]
+  have : (2 * (π:ℂ) * Complex.I * (dt * f * ((k : ℂ) - ((lenPulse tR cycles f dt / 2 : ℕ) : ℂ))))
+      = ((2 * π * (dt * f * ((k : ℝ) - ((lenPulse tR cycles f dt / 2 : ℕ) : ℝ))) : ℝ) : ℂ) * Complex.I := by
+    push_cast; ring
+  rw [norm_mul, this, Complex.norm_exp_ofReal_mul_I, mul_one, Complex.norm_real,
+    Real.norm_of_nonneg (hann_range _ k).1]
+
+section tb
+variable {K : Type} [Sub K] [Mul K] [Div K]
+
+/-- the padded toneburst has the requested number of samples, wrapped or not -/
+theorem toneburst_length (t : RT K) (zero : K) (cycles : ℕ) (f dt : K) (N : ℕ) (wrap : Bool) :
+    (toneburst t zero cycles f dt N wrap).length = N := by
+  unfold toneburst
+  cases wrap <;> simp
+  omega
+
+/-- **support**: without wrapping, the first `l = lenPulse` samples are the pulse and everything
+after is zero -/
+theorem toneburst_support (t : RT K) (zero : K) (cycles : ℕ) (f dt : K) (N k : ℕ) (hk : k < N) :
+    (toneburst t zero cycles f dt N false)[k]'(by rw [toneburst_length]; exact hk)
+      = if k < lenPulse t cycles f dt then pulse t cycles f dt k else (zero, zero) := by
+  simp [toneburst]
+
+/-- wrapping is the left rotation by `half` -/
+theorem toneburst_wrap_eq (t : RT K) (zero : K) (cycles : ℕ) (f dt : K) (N : ℕ)
+    (hl : lenPulse t cycles f dt / 2 ≤ N) :
+    toneburst t zero cycles f dt N true
+      = (toneburst t zero cycles f dt N false).rotate (lenPulse t cycles f dt / 2) := by
+  rw [List.rotate_eq_drop_append_take (by rw [toneburst_length]; exact hl)]
+  simp [toneburst]
+
+/-- wrapped: entry `k` is entry `(k + half) mod N` of the unwrapped toneburst -/
+theorem toneburst_wrap_entry (t : RT K) (zero : K) (cycles : ℕ) (f dt : K) (N k : ℕ) (hk : k < N)
+    (hl : lenPulse t cycles f dt / 2 ≤ N) :
+    (toneburst t zero cycles f dt N true)[k]'(by rw [toneburst_length]; exact hk)
+      = (toneburst t zero cycles f dt N false)[(k + lenPulse t cycles f dt / 2) % N]'(by
+          rw [toneburst_length]; exact Nat.mod_lt _ (by omega)) := by
+  simp only [toneburst_wrap_eq t zero cycles f dt N hl, List.getElem_rotate, toneburst_length]
+
+/-- **with `wrap = true` time zero is at index 0**: entry `0` is the centre sample of the pulse -/
+theorem toneburst_wrap_zero (t : RT K) (zero : K) (cycles : ℕ) (f dt : K) (N : ℕ)
+    (hl : lenPulse t cycles f dt ≤ N) :
+    (toneburst t zero cycles f dt N true)[0]'(by
+        rw [toneburst_length]; have := lenPulse_odd t cycles f dt; omega)
+      = pulse t cycles f dt (lenPulse t cycles f dt / 2) := by
+  have hodd := lenPulse_odd t cycles f dt
+  rw [toneburst_wrap_entry t zero cycles f dt N 0 (by omega) (by omega)]
+  simp only [Nat.zero_add]
+  have hlt : lenPulse t cycles f dt / 2 < N := by omega
+  rw [toneburst_support t zero cycles f dt N _ (Nat.mod_lt _ (by omega))]
+  rw [Nat.mod_eq_of_lt hlt, if_pos (by omega)]
+
+omit [Sub K] [Mul K] in
+/-- **`make_toneburst2` layout**: `nb·l` zeros, the pulse, `na·l` zeros; the time-zero index is
+the centre of the pulse -/
+theorem toneburst2_layout (t : RT K) (cycles : ℕ) (f dt : K) (nb na : ℕ) :
+    toneburst2Layout t cycles f dt nb na
+      = (nb * lenPulse t cycles f dt + lenPulse t cycles f dt + na * lenPulse t cycles f dt,
+         nb * lenPulse t cycles f dt + lenPulse t cycles f dt / 2) := rfl
+end tb
+
+/-- `pulse_symm` under its property name -/
+theorem toneburst_symmetric (cycles : ℕ) (f dt : ℝ) (k : ℕ) (hk : k < lenPulse tR cycles f dt) :
+    (pulse tR cycles f dt (lenPulse tR cycles f dt - 1 - k)).1 = (pulse tR cycles f dt k).1 ∧
+    (pulse tR cycles f dt (lenPulse tR cycles f dt - 1 - k)).2 = -(pulse tR cycles f dt k).2 :=
+  pulse_symm cycles f dt k hk
+
+/-- `pulse_peak` with the bound, under its property name -/
+theorem toneburst_peak (cycles : ℕ) (f dt : ℝ) :
+    pulse tR cycles f dt (lenPulse tR cycles f dt / 2) = (1, 0) ∧
+    ∀ k, |(pulse tR cycles f dt k).1| ≤ 1 :=
+  ⟨pulse_peak cycles f dt, fun k => (pulse_re_le_one cycles f dt k).1⟩
+
+/-- the time-zero index of `make_toneburst2` is the centre of the pulse placed after `nb·l` zeros:
+it lies strictly inside the pulse, with `l/2` pulse samples on either side -/
+theorem t0_idx_centre {K : Type} [Div K] (t : RT K) (cycles : ℕ) (f dt : K) (nb na : ℕ) :
+    (toneburst2Layout t cycles f dt nb na).2 = nb * lenPulse t cycles f dt + lenPulse t cycles f dt / 2 ∧
+    (toneburst2Layout t cycles f dt nb na).2 - nb * lenPulse t cycles f dt
+      = nb * lenPulse t cycles f dt + lenPulse t cycles f dt - 1 - (toneburst2Layout t cycles f dt nb na).2 ∧
+    (toneburst2Layout t cycles f dt nb na).2 < (toneburst2Layout t cycles f dt nb na).1 := by
+  have hodd := lenPulse_odd t cycles f dt
+  rw [toneburst2_layout]
+  refine ⟨rfl, ?_, ?_⟩
+  · simp only; omega
+  · simp only
+    have : 0 ≤ na * lenPulse t cycles f dt := Nat.zero_le _
+    omega
+
+/-! ## 2. Hilbert weights and the analytic signal -/
+
+open Complex Finset
+open scoped ComplexConjugate
+
+/-- **the analytic-signal weights**: `1` at DC, `2` on the positive-frequency bins, `1` at the
+Nyquist bin of an even length, `0` on the negative-frequency bins -/
+theorem hilbertWeight_spec (n : ℕ) (hn : 1 ≤ n) :
+    hilbertWeight n 0 = 1 ∧
+    (∀ k, 0 < k → 2 * k < n → hilbertWeight n k = 2) ∧
+    (∀ k, 2 * k = n → hilbertWeight n k = 1) ∧
+    (∀ k, n < 2 * k → hilbertWeight n k = 0) := by
+  refine ⟨?_, ?_, ?_, ?_⟩
+  · unfold hilbertWeight; simp
+  · intro k h0 hk
+    unfold hilbertWeight
+    simp only [beq_iff_eq, Bool.or_eq_true]
+    split_ifs <;> omega
+  · intro k hk
+    unfold hilbertWeight
+    simp only [beq_iff_eq, Bool.or_eq_true]
+    split_ifs <;> omega
+  · intro k hk
+    unfold hilbertWeight
+    simp only [beq_iff_eq, Bool.or_eq_true]
+    split_ifs <;> omega
+
+/-- the "sign" sequence: `+1` on the positive-frequency bins, `−1` on the negative-frequency
+bins, `0` at DC and Nyquist -/
+def sgnSeq (n k : ℕ) : ℤ := if k = 0 ∨ 2 * k = n then 0 else if 2 * k < n then 1 else -1
+
+/-- decomposition of the weights: `h = 1 + s` -/
+theorem hilbertWeight_eq_one_add_sgn (n k : ℕ) :
+    (hilbertWeight n k : ℤ) = 1 + sgnSeq n k := by
+  unfold hilbertWeight sgnSeq
+  simp only [beq_iff_eq, Bool.or_eq_true]
+  split_ifs <;> omega
+
+/-- the sign sequence is odd under `k ↦ n − k` -/
+theorem sgnSeq_reflect (n k : ℕ) (h0 : 0 < k) (hk : k < n) : sgnSeq n (n - k) = -sgnSeq n k := by
+  unfold sgnSeq
+  split_ifs <;> omega
+
+/-- no sign at DC -/
+theorem sgnSeq_zero (n : ℕ) : sgnSeq n 0 = 0 := by simp [sgnSeq]
+
+/-- **Hermitian symmetry of the spectrum of a real signal**: `X (n − k) = conj (X k)` -/
+theorem dft_real_conj (x : ℕ → ℝ) (n k : ℕ) (hk : k ≤ n) :
+    conj (C10.dft (fun l => (x l : ℂ)) n k) = C10.dft (fun l => (x l : ℂ)) n (n - k) := by
+  unfold C10.dft
+  rw [map_sum]
+  apply sum_congr rfl
+  intro l hl
+  have hn : (n : ℂ) ≠ 0 := by
+    have : n ≠ 0 := by have := mem_range.1 hl; omega
+    exact_mod_cast this
+  rw [map_mul, conj_ofReal, ← exp_conj]
+  congr 1
+  have e1 : conj (-(2 * (π : ℂ) * I * ((l : ℂ) * k / n))) = 2 * π * I * (l * k / n) := by
+    simp only [map_neg, map_mul, map_div₀, conj_I, conj_ofReal, map_natCast, map_ofNat]
+    ring
+  have e2 : -(2 * (π : ℂ) * I * ((l : ℂ) * ((n - k : ℕ) : ℂ) / n))
+      = 2 * π * I * (l * k / n) + ((-(l : ℤ) : ℤ) : ℂ) * (2 * π * I) := by
+    rw [Nat.cast_sub hk]
+    push_cast
+    field_simp
+    ring
+  rw [e1, e2, exp_add, exp_int_mul_two_pi_mul_I, mul_one]
+
+/-- term `k` of the back-transform of the sign-weighted spectrum -/
+noncomputable def sgnTerm (x : ℕ → ℝ) (n : ℕ) (j : ℤ) (k : ℕ) : ℂ :=
+  (sgnSeq n k : ℂ) * C10.dft (fun l => (x l : ℂ)) n k * exp (2 * π * I * (j * k / n))
+
+/-- **pairing lemma**: the conjugate of term `k` is minus term `n − k` -/
+theorem sgnTerm_conj (x : ℕ → ℝ) (n : ℕ) (j : ℤ) (k : ℕ) (h0 : 0 < k) (hk : k < n) :
+    conj (sgnTerm x n j k) = -sgnTerm x n j (n - k) := by
+  unfold sgnTerm
+  have hn : (n : ℂ) ≠ 0 := by
+    have : n ≠ 0 := by omega
+    exact_mod_cast this
+  rw [map_mul, map_mul, dft_real_conj x n k hk.le, sgnSeq_reflect n k h0 hk, ← exp_conj]
+  have e1 : conj (2 * (π : ℂ) * I * ((j : ℂ) * k / n)) = -(2 * π * I * (j * k / n)) := by
+    simp only [map_mul, map_div₀, conj_I, conj_ofReal, map_natCast, map_ofNat, map_intCast]
+    ring
+  have e2 : 2 * (π : ℂ) * I * ((j : ℂ) * ((n - k : ℕ) : ℂ) / n)
+      = -(2 * π * I * (j * k / n)) + ((j : ℤ) : ℂ) * (2 * π * I) := by
+    rw [Nat.cast_sub hk.le]
+    field_simp
+    ring
+  rw [e1, e2, exp_add, exp_int_mul_two_pi_mul_I, mul_one]
+  simp only [map_intCast, Int.cast_neg]
+  ring
+
+/-- the sign-weighted part of the analytic signal is purely imaginary -/
+theorem sgn_sum_conj (x : ℕ → ℝ) (n : ℕ) (j : ℤ) :
+    conj (∑ k ∈ range n, sgnTerm x n j k) = -∑ k ∈ range n, sgnTerm x n j k := by
+  rcases n with _ | m
+  · simp
+  have h0 : sgnTerm x (m + 1) j 0 = 0 := by simp [sgnTerm, sgnSeq_zero]
+  rw [sum_range_succ', h0, add_zero, map_sum]
+  rw [← sum_range_reflect (fun i => sgnTerm x (m + 1) j (i + 1)) m, ← sum_neg_distrib]
+  apply sum_congr rfl
+  intro k hk
+  have hk' := mem_range.1 hk
+  rw [sgnTerm_conj x (m + 1) j (k + 1) (by omega) (by omega)]
+  congr 2
+  omega
+
+/-- … so its real part vanishes -/
+theorem sgn_sum_re (x : ℕ → ℝ) (n : ℕ) (j : ℤ) :
+    (∑ k ∈ range n, sgnTerm x n j k).re = 0 := by
+  have := congrArg Complex.re (sgn_sum_conj x n j)
+  rw [conj_re, neg_re] at this
+  linarith
+
+/-- **the analytic signal reproduces the signal in its real part**: for a real signal `x` of
+length `n` with DFT `X k = Σ_{l<n} x l e^{−2πi lk/n}`, the sequence
+`y j = (1/n) Σ_{k<n} h k · X k · e^{2πi jk/n}` with `h = hilbertWeight n` has `Re (y j) = x j`.
+(`h = 1 + s`; the `1` part is `x` by DFT inversion, the `s` part is purely imaginary by
+`sgn_sum_conj`.) -/
+theorem hilbert_real_part (x : ℕ → ℝ) (n j : ℕ) (hj : j < n) :
+    (C10.idft (fun k => (hilbertWeight n k : ℂ) * C10.dft (fun l => (x l : ℂ)) n k) n j).re = x j := by
+  have split : C10.idft (fun k => (hilbertWeight n k : ℂ) * C10.dft (fun l => (x l : ℂ)) n k) n j
+      = C10.idft (C10.dft (fun l => (x l : ℂ)) n) n j
+        + (n : ℂ)⁻¹ * ∑ k ∈ range n, sgnTerm x n j k := by
+    unfold C10.idft
+    rw [← mul_add, ← sum_add_distrib]
+    congr 1
+    apply sum_congr rfl
+    intro k hk
+    have h := hilbertWeight_eq_one_add_sgn n k
+    have h' : (hilbertWeight n k : ℂ) = 1 + (sgnSeq n k : ℂ) := by exact_mod_cast congrArg (Int.cast : ℤ → ℂ) h
+    dsimp only
+    rw [h']
+    unfold sgnTerm
+    push_cast
+    ring
+  rw [split, C10.idft_comp_dft _ n j hj, add_re, ofReal_re]
+  have : ((n : ℂ)⁻¹ * ∑ k ∈ range n, sgnTerm x n j k).re = 0 := by
+    have e : (n : ℂ)⁻¹ = (((n : ℝ)⁻¹ : ℝ) : ℂ) := by push_cast; rfl
+    rw [e, re_ofReal_mul, sgn_sum_re, mul_zero]
+  rw [this, add_zero]
+
+/-! ### The model's `idft` and `rfftToHilbert` over the reals -/
+
+/-- the model reduces `j·k` modulo `n` before forming the phase; by periodicity of `cis` that is
+the same phase factor -/
+theorem cis_mod (n j k : ℕ) (hn : n ≠ 0) :
+    toC (cis tR (tR.ofNat 2 * tR.pi * tR.ofNat (j * k % n) / tR.ofNat n))
+      = exp (2 * π * I * (((j : ℤ) : ℂ) * k / n)) := by
+  have hn' : (n : ℂ) ≠ 0 := by exact_mod_cast hn
+  rw [toC_cis]
+  simp only [tR_ofNat, tR_pi]
+  obtain ⟨r, d, hdm⟩ : ∃ r d : ℕ, j * k % n = r ∧ (r : ℂ) = (j : ℂ) * k - n * (d : ℂ) := by
+    refine ⟨_, j * k / n, rfl, ?_⟩
+    have h2 : ((j * k % n : ℕ) : ℂ) + n * ((j * k / n : ℕ) : ℂ) = (j : ℂ) * k := by
+      exact_mod_cast congrArg (Nat.cast : ℕ → ℂ) (Nat.mod_add_div (j * k) n)
+    linear_combination h2
+  rw [hdm.1]
+  have : (((2 : ℕ) : ℝ) * π * (r : ℝ) / (n : ℝ) : ℝ) * I
+      = 2 * π * I * (((j : ℤ) : ℂ) * k / n) + ((-(d : ℤ) : ℤ) : ℂ) * (2 * π * I) := by
+    push_cast
+    rw [hdm.2]
+    field_simp
+    ring
+  rw [this, exp_add, exp_int_mul_two_pi_mul_I, mul_one]
+
+/-- **the model's inverse DFT is the mathematical one** (input zero-padded or truncated to `n`) -/
+theorem toC_idft (y : List (Cx ℝ)) (n j : ℕ) :
+    toC (idft tR 0 y n j) = C10.idft (fun k => toC (y.getD k (0, 0))) n j := by
+  rcases Nat.eq_zero_or_pos n with rfl | hn
+  · simp [idft, C10.idft, csmul, toC]
+    rfl
+  have hn0 : n ≠ 0 := by omega
+  unfold idft C10.idft
+  simp only
+  rw [toC_csmul, toC_foldl_cadd, toC_zero, zero_add]
+  congr 1
+  · simp
+  · rw [sum_subset (s₁ := range (min y.length n)) (s₂ := range n)]
+    · apply sum_congr rfl
+      intro k _
+      rw [toC_cmul, cis_mod n j k hn0]
+    · intro k hk
+      simp only [mem_range] at hk ⊢
+      omega
+    · intro k hk hk'
+      simp only [mem_range] at hk hk'
+      have : y.length ≤ k := by omega
+      rw [toC_cmul, List.getD_eq_getElem?_getD, List.getElem?_eq_none this, Option.getD_none, toC_zero, zero_mul]
+
+/-- the back-transform only reads bins `k < n` -/
+theorem idft_congr (X Y : ℕ → ℂ) (n : ℕ) (j : ℤ) (h : ∀ k, k < n → X k = Y k) :
+    C10.idft X n j = C10.idft Y n j := by
+  unfold C10.idft
+  congr 1
+  apply sum_congr rfl
+  intro k hk
+  rw [h k (mem_range.1 hk)]
+
+/-- reading beyond the end of a list gives the padding value -/
+theorem getD_zero_of_le (y : List (Cx ℝ)) (k : ℕ) (h : y.length ≤ k) : y.getD k (0, 0) = (0, 0) := by
+  rw [List.getD_eq_getElem?_getD, List.getElem?_eq_none h, Option.getD_none]
+
+/-- reading inside a list -/
+theorem getD_of_lt (y : List (Cx ℝ)) (k : ℕ) (h : k < y.length) : y.getD k (0, 0) = y[k] := by
+  rw [List.getD_eq_getElem?_getD, List.getElem?_eq_getElem h, Option.getD_some]
+
+section generic
+variable {K : Type} [Add K] [Sub K] [Mul K] [Div K]
+/-- the analytic signal has `n` samples -/
+theorem rfftToHilbert_length (t : RT K) (zero : K) (xf : List (Cx K)) (n : ℕ) :
+    (rfftToHilbert t zero xf n).length = n := by
+  simp [rfftToHilbert]
+end generic
+
+/-- **`rfft_to_hilbert` over the reals**: sample `j` is the back-transform of the half spectrum
+weighted by `hilbertWeight` (bins beyond the given half spectrum count as zero) -/
+theorem toC_rfftToHilbert (xf : List (Cx ℝ)) (n j : ℕ) (hj : j < n) :
+    toC ((rfftToHilbert tR 0 xf n)[j]'(by rw [rfftToHilbert_length]; exact hj))
+      = C10.idft (fun k => (hilbertWeight n k : ℂ) * toC (xf.getD k (0, 0))) n j := by
+  simp only [rfftToHilbert, List.getElem_map, List.getElem_range]
+  rw [toC_idft]
+  apply idft_congr
+  intro k _
+  rcases Nat.lt_or_ge k xf.length with h | h
+  · rw [getD_of_lt _ k (by simpa using h)]
+    simp only [List.getElem_map, List.getElem_range, toC_csmul, tR_ofNat, ofReal_natCast]
+  · rw [getD_zero_of_le _ k (by simpa using h), getD_zero_of_le _ k h, toC_zero, mul_zero]
+
+/-- **the analytic signal computed by the model reproduces the signal in its real part**: if
+`xf` holds the bins `0 … ⌊n/2⌋` of the DFT of a real signal `x` of length `n` (what `rfft`
+returns), the real part of sample `j` of `rfftToHilbert` is `x j` -/
+theorem rfftToHilbert_real_part (x : ℕ → ℝ) (xf : List (Cx ℝ)) (n j : ℕ) (hj : j < n)
+    (hxf : ∀ k, 2 * k ≤ n → toC (xf.getD k (0, 0)) = C10.dft (fun l => (x l : ℂ)) n k) :
+    ((rfftToHilbert tR 0 xf n)[j]'(by rw [rfftToHilbert_length]; exact hj)).1 = x j := by
+  rw [← toC_re, toC_rfftToHilbert xf n j hj, ← hilbert_real_part x n j hj]
+  congr 1
+  apply idft_congr
+  intro k _
+  rcases Nat.lt_or_ge n (2 * k) with h | h
+  · rw [(hilbertWeight_spec n (by omega)).2.2.2 k h]; simp
+  · rw [hxf k h]
+
+/-! ## 3. Time shift of a spectrum -/
+
+section generic
+variable {K : Type} [Add K] [Sub K] [Mul K] [Neg K]
+
+/-- `zip` truncates to the shorter of spectrum and frequency list -/
+theorem timeshift_length (t : RT K) (x : List (Cx K)) (freqs : List K) (tau : K) :
+    (timeshift t x freqs tau).length = min x.length freqs.length := by
+  simp [timeshift]
+
+/-- **`timeshift_spectra`**: bin `k` is multiplied by `e^{−2πi f_k τ}` -/
+theorem timeshift_spec (t : RT K) (x : List (Cx K)) (freqs : List K) (tau : K) (k : ℕ)
+    (hx : k < x.length) (hf : k < freqs.length) :
+    (timeshift t x freqs tau)[k]'(by rw [timeshift_length]; omega)
+      = cmul x[k] (cis t (-(t.ofNat 2 * t.pi * freqs[k] * tau))) := by
+  simp [timeshift]
+end generic
+
+/-- over the reals: bin `k` is multiplied by the complex number `e^{−2πi f_k τ}` -/
+theorem toC_timeshift (x : List (Cx ℝ)) (freqs : List ℝ) (tau : ℝ) (k : ℕ)
+    (hx : k < x.length) (hf : k < freqs.length) :
+    toC ((timeshift tR x freqs tau)[k]'(by rw [timeshift_length]; omega))
+      = toC x[k] * exp (-(2 * π * I * (freqs[k] * tau))) := by
+  rw [timeshift_spec tR x freqs tau k hx hf, toC_cmul, toC_cis]
+  congr 2
+  simp only [tR_ofNat, tR_pi]
+  push_cast
+  ring
+
+/-- on the DFT frequency grid `f_k = k/(n dt)` a delay of `m` samples, `τ = m dt`, multiplies
+bin `k` by `e^{−2πi k m/n}` -/
+theorem toC_timeshift_grid (x : List (Cx ℝ)) (freqs : List ℝ) (n : ℕ) (dt : ℝ) (hdt : dt ≠ 0)
+    (m : ℤ) (hlen : x.length ≤ freqs.length)
+    (hfreq : ∀ k (h : k < freqs.length), freqs[k] = (k : ℝ) / (n * dt)) (k : ℕ) :
+    toC ((timeshift tR x freqs (m * dt)).getD k (0, 0))
+      = toC (x.getD k (0, 0)) * exp (-(2 * π * I * (m * k / n))) := by
+  rcases Nat.lt_or_ge k x.length with h | h
+  · have hf : k < freqs.length := by omega
+    rw [getD_of_lt _ k (by rw [timeshift_length]; omega), getD_of_lt _ k h,
+      toC_timeshift x freqs _ k h hf, hfreq k hf]
+    congr 3
+    push_cast
+    have : (dt : ℂ) ≠ 0 := by exact_mod_cast hdt
+    rcases Nat.eq_zero_or_pos n with rfl | hn
+    · simp
+    · have : (n : ℂ) ≠ 0 := by exact_mod_cast hn.ne'
+      field_simp
+  · rw [getD_zero_of_le _ k (by rw [timeshift_length]; omega), getD_zero_of_le _ k h, toC_zero,
+      zero_mul]
+
+/-- **shift theorem for the model**: with `f_k = k/(n dt)` and `τ = m dt`, the back-transform of
+the time-shifted spectrum at sample `j` is the back-transform of the original spectrum at
+sample `(j − m) mod n`: a circular shift by `m` samples -/
+theorem shift_theorem (X : List (Cx ℝ)) (freqs : List ℝ) (n : ℕ) (hn : n ≠ 0) (dt : ℝ) (hdt : dt ≠ 0)
+    (m : ℤ) (hlen : X.length ≤ freqs.length)
+    (hfreq : ∀ k (h : k < freqs.length), freqs[k] = (k : ℝ) / (n * dt)) (j : ℕ) :
+    idft tR 0 (timeshift tR X freqs (m * dt)) n j
+      = idft tR 0 X n ((((j : ℤ) - m) % n).toNat) := by
+  apply toC_injective
+  rw [toC_idft, toC_idft]
+  have hnz : (n : ℤ) ≠ 0 := by exact_mod_cast hn
+  rw [Int.toNat_of_nonneg (Int.emod_nonneg _ hnz), C10.idft_emod _ n hn, ← C10.idft_shift]
+  apply idft_congr
+  intro k _
+  exact toC_timeshift_grid X freqs n dt hdt m hlen hfreq k
+
+/-- the same for the mathematical back-transform: a delay, not yet reduced modulo `n` -/
+theorem shift_theorem_idft (X : List (Cx ℝ)) (freqs : List ℝ) (n : ℕ) (dt : ℝ) (hdt : dt ≠ 0)
+    (m : ℤ) (hlen : X.length ≤ freqs.length)
+    (hfreq : ∀ k (h : k < freqs.length), freqs[k] = (k : ℝ) / (n * dt)) (j : ℕ) :
+    toC (idft tR 0 (timeshift tR X freqs (m * dt)) n j)
+      = C10.idft (fun k => toC (X.getD k (0, 0))) n ((j : ℤ) - m) := by
+  rw [toC_idft, ← C10.idft_shift]
+  apply idft_congr
+  intro k _
+  exact toC_timeshift_grid X freqs n dt hdt m hlen hfreq k
+
+/-- if the spectrum is the DFT of a signal `x` of length `n`, the shifted spectrum transforms
+back to `x` circularly shifted by `m` samples -/
+theorem shift_theorem_signal (x : ℕ → ℂ) (X : List (Cx ℝ)) (freqs : List ℝ) (n : ℕ) (dt : ℝ)
+    (hdt : dt ≠ 0) (m : ℤ) (hlen : X.length ≤ freqs.length)
+    (hfreq : ∀ k (h : k < freqs.length), freqs[k] = (k : ℝ) / (n * dt))
+    (hX : ∀ k, k < n → toC (X.getD k (0, 0)) = C10.dft x n k) (j : ℕ) (hj : j < n) :
+    toC (idft tR 0 (timeshift tR X freqs (m * dt)) n j) = x ((((j : ℤ) - m) % n).toNat) := by
+  have hn : n ≠ 0 := by omega
+  have hnz : (0 : ℤ) < n := by exact_mod_cast Nat.pos_of_ne_zero hn
+  rw [shift_theorem X freqs n hn dt hdt m hlen hfreq j, toC_idft, idft_congr _ _ n _ hX]
+  apply C10.idft_comp_dft
+  have := Int.emod_lt_of_pos ((j : ℤ) - m) hnz
+  have := Int.emod_nonneg ((j : ℤ) - m) hnz.ne'
+  omega
+
+/-- **the delayed analytic signal**: `rfftToHilbert` of the time-shifted half spectrum is the
+analytic signal of the unshifted one, circularly shifted by `m` samples -/
+theorem hilbert_shift (xf : List (Cx ℝ)) (freqs : List ℝ) (n : ℕ) (dt : ℝ) (hdt : dt ≠ 0)
+    (m : ℤ) (hlen : xf.length ≤ freqs.length)
+    (hfreq : ∀ k (h : k < freqs.length), freqs[k] = (k : ℝ) / (n * dt)) (j : ℕ) (hj : j < n) :
+    (rfftToHilbert tR 0 (timeshift tR xf freqs (m * dt)) n)[j]'(by
+        rw [rfftToHilbert_length]; exact hj)
+      = (rfftToHilbert tR 0 xf n)[(((j : ℤ) - m) % n).toNat]'(by
+        rw [rfftToHilbert_length]
+        have hnz : (0 : ℤ) < n := by omega
+        have := Int.emod_lt_of_pos ((j : ℤ) - m) hnz
+        have := Int.emod_nonneg ((j : ℤ) - m) hnz.ne'
+        omega) := by
+  have hn : n ≠ 0 := by omega
+  have hnz : (0 : ℤ) < n := by exact_mod_cast Nat.pos_of_ne_zero hn
+  have h1 := Int.emod_lt_of_pos ((j : ℤ) - m) hnz
+  have h2 := Int.emod_nonneg ((j : ℤ) - m) hnz.ne'
+  apply toC_injective
+  rw [toC_rfftToHilbert _ n j hj, toC_rfftToHilbert _ n _ (by omega)]
+  rw [Int.toNat_of_nonneg h2, C10.idft_emod _ n hn, ← C10.idft_shift]
+  apply idft_congr
+  intro k _
+  rw [toC_timeshift_grid xf freqs n dt hdt m hlen hfreq k]
+  ring
+
+/-! ## 4. Placement in the output window -/
+
+section placement
+variable {K : Type} [Add K]
+
+/-- NumPy's normalisation of a slice bound for an array of length `nOut` -/
+def normIdx (nOut : ℤ) (i : ℤ) : ℤ := if i < 0 then max (i + nOut) 0 else min i nOut
+
+/-- `place`, with the slice bounds named -/
+theorem place_eq (out resp : List (Cx K)) (start : ℤ) :
+    place out resp start =
+      if normIdx out.length (start + resp.length) - normIdx out.length start ≠ resp.length then out
+      else (List.zip (List.range out.length) out).map (fun (p : ℕ × Cx K) =>
+        if normIdx out.length start ≤ (p.1 : ℤ) ∧ (p.1 : ℤ) < normIdx out.length (start + resp.length) then
+          (match resp[((p.1 : ℤ) - normIdx out.length start).toNat]? with
+           | some r => cadd p.2 r
+           | none => p.2)
+        else p.2) := rfl
+
+/-- the output window keeps its length, whatever the start index -/
+theorem place_length (out resp : List (Cx K)) (start : ℤ) :
+    (place out resp start).length = out.length := by
+  rw [place_eq]
+  split_ifs <;> simp
+
+/-- **placement**: if the slice `[start, start + resp.length)` fits in the output, the response
+is added there sample by sample and everything else is untouched -/
+theorem place_spec (out resp : List (Cx K)) (start : ℤ) (h0 : 0 ≤ start)
+    (hfit : start + resp.length ≤ out.length) (i : ℕ) (hi : i < out.length) :
+    (place out resp start)[i]'(by rw [place_length]; exact hi)
+      = if h : start ≤ (i : ℤ) ∧ (i : ℤ) < start + resp.length
+        then cadd out[i] (resp[((i : ℤ) - start).toNat]'(by omega)) else out[i] := by
+  have hlo : normIdx out.length start = start := by
+    unfold normIdx; rw [if_neg (by omega)]; omega
+  have hhi : normIdx out.length (start + resp.length) = start + resp.length := by
+    unfold normIdx; rw [if_neg (by omega)]; omega
+  have hP : place out resp start = (List.zip (List.range out.length) out).map (fun (p : ℕ × Cx K) =>
+        if start ≤ (p.1 : ℤ) ∧ (p.1 : ℤ) < start + resp.length then
+          (match resp[((p.1 : ℤ) - start).toNat]? with
+           | some r => cadd p.2 r
+           | none => p.2)
+        else p.2) := by
+    rw [place_eq, hlo, hhi, if_neg (by simp)]
+  simp only [hP, List.getElem_map, List.getElem_zip, List.getElem_range]
+  split_ifs with h
+  · rw [List.getElem?_eq_getElem (by omega)]
+  · rfl
+
+/-- **out of range**: if the slice starts inside or beyond the array but does not fit, nothing
+is written (NumPy raises a broadcast error here; the harness only uses delays that fit) -/
+theorem place_out_of_range (out resp : List (Cx K)) (start : ℤ) (h0 : 0 ≤ start)
+    (hfit : (out.length : ℤ) < start + resp.length) : place out resp start = out := by
+  have hlo : normIdx out.length start = min start out.length := by
+    unfold normIdx; rw [if_neg (by omega)]
+  have hhi : normIdx out.length (start + resp.length) = out.length := by
+    unfold normIdx; rw [if_neg (by omega)]; omega
+  rw [place_eq, hlo, hhi]
+  split_ifs with h
+  · rfl
+  · -- only possible for an empty response placed beyond the end: the slice is empty
+    have hemp : ¬ (min start (out.length : ℤ) ≤ (out.length : ℤ) ∧ False) := by simp
+    apply List.ext_getElem
+    · simp
+    · intro i h1 h2
+      simp only [List.getElem_map, List.getElem_zip, List.getElem_range]
+      rw [if_neg]
+      omega
+
+/-- **a negative start counts from the end** (NumPy slicing): if the whole slice
+`[start, start + resp.length)` has negative bounds not below `−out.length`, the response is
+added at `start + out.length`, silently wrapped round to the end of the window -/
+theorem place_negative_wraps (out resp : List (Cx K)) (start : ℤ)
+    (hlo' : -(out.length : ℤ) ≤ start) (hneg : start + resp.length < 0) :
+    place out resp start = place out resp (start + out.length) := by
+  have hlo : normIdx out.length start = start + out.length := by
+    unfold normIdx; rw [if_pos (by omega)]; omega
+  have hhi : normIdx out.length (start + resp.length) = start + out.length + resp.length := by
+    unfold normIdx; rw [if_pos (by omega)]; omega
+  have hlo2 : normIdx out.length (start + out.length) = start + out.length := by
+    unfold normIdx; rw [if_neg (by omega)]; omega
+  have hhi2 : normIdx out.length (start + out.length + resp.length) = start + out.length + resp.length := by
+    unfold normIdx; rw [if_neg (by omega)]; omega
+  rw [place_eq, place_eq, hlo, hhi, hlo2, hhi2]
+
+/-- **a slice straddling index 0 is rejected**: `start < 0 ≤ start + resp.length` with a
+non-empty output gives slice bounds `start + nOut … start + n`, whose length is not `n` -/
+theorem place_straddle (out resp : List (Cx K)) (start : ℤ) (hout : out ≠ [])
+    (hlo' : -(out.length : ℤ) ≤ start) (hneg : start < 0) (hpos : 0 ≤ start + resp.length) :
+    place out resp start = out := by
+  have : 0 < out.length := List.length_pos_iff.2 hout
+  have hlo : normIdx out.length start = start + out.length := by
+    unfold normIdx; rw [if_pos (by omega)]; omega
+  have hhi : normIdx out.length (start + resp.length) = min (start + resp.length) out.length := by
+    unfold normIdx; rw [if_neg (by omega)]
+  rw [place_eq, hlo, hhi, if_pos (by omega)]
+
+/-- **response sample `m` lands on output sample `q − t0idx + m`** -/
+theorem placement_sample (out resp : List (Cx K)) (q : ℤ) (t0idx m : ℕ) (h0 : 0 ≤ q - t0idx)
+    (hfit : q - t0idx + resp.length ≤ out.length) (hm : m < resp.length) :
+    (place out resp (q - t0idx))[(q - t0idx + m).toNat]'(by rw [place_length]; omega)
+      = cadd (out[(q - t0idx + m).toNat]'(by omega)) resp[m] := by
+  rw [place_spec out resp (q - t0idx) h0 hfit _ (by omega), dif_pos (by omega)]
+  congr 1
+  have : (((q - (t0idx : ℤ) + (m : ℤ)).toNat : ℕ) : ℤ) - (q - t0idx) = m := by omega
+  simp only [this, Int.toNat_natCast]
+
+/-- **the time-zero sample of the toneburst lands on output sample `q`** -/
+theorem placement_t0 (out resp : List (Cx K)) (q : ℤ) (t0idx : ℕ) (h0 : 0 ≤ q - t0idx)
+    (hfit : q - t0idx + resp.length ≤ out.length) (ht0 : t0idx < resp.length) :
+    (place out resp (q - t0idx))[q.toNat]'(by rw [place_length]; omega)
+      = cadd (out[q.toNat]'(by omega)) resp[t0idx] := by
+  have := placement_sample out resp q t0idx t0idx h0 hfit ht0
+  simpa using this
+
+end placement
+
+/-! ## 5. A delay that is a whole number of samples -/
+
+/-- a time shift by zero is the identity -/
+theorem timeshift_zero (x : List (Cx ℝ)) (freqs : List ℝ) (hlen : x.length ≤ freqs.length) :
+    timeshift tR x freqs 0 = x := by
+  apply List.ext_getElem
+  · rw [timeshift_length]; omega
+  · intro k h1 h2
+    rw [timeshift_spec tR x freqs 0 k h2 (by omega)]
+    simp [cmul, cis]
+
+/-- **aligned delays split exactly**: `delay = q·dt` gives `q` whole samples and remainder `0` -/
+theorem aligned_exact (q : ℤ) (dt : ℝ) (hdt : 0 < dt) : splitDelay tR (q * dt) dt = (q, 0) := by
+  unfold splitDelay
+  simp only [tR_floor, tR_ofInt]
+  have : (q : ℝ) * dt / dt = q := by field_simp
+  rw [this, Int.floor_intCast, sub_self]
+
+
+/-- **split + shift + placement for an aligned delay**: for `delay = q·dt` the fractional shift is
+by `0`, so the response is the unshifted analytic signal, and placing it at
+`start = q − t0idx` puts its time-zero sample `t0idx` exactly on output sample `q` -/
+theorem aligned_delay (xf : List (Cx ℝ)) (freqs : List ℝ) (hlen : xf.length ≤ freqs.length)
+    (n : ℕ) (q : ℤ) (dt : ℝ) (hdt : 0 < dt) (out : List (Cx ℝ)) (t0idx : ℕ)
+    (h0 : 0 ≤ q - t0idx) (hfit : q - t0idx + n ≤ out.length) (ht0 : t0idx < n) :
+    rfftToHilbert tR 0 (timeshift tR xf freqs (splitDelay tR (q * dt) dt).2) n
+        = rfftToHilbert tR 0 xf n ∧
+    ∃ (h1 : q.toNat < (place out (rfftToHilbert tR 0 (timeshift tR xf freqs
+              (splitDelay tR (q * dt) dt).2) n) ((splitDelay tR (q * dt) dt).1 - t0idx)).length)
+      (h2 : q.toNat < out.length) (h3 : t0idx < (rfftToHilbert tR 0 xf n).length),
+      (place out (rfftToHilbert tR 0 (timeshift tR xf freqs (splitDelay tR (q * dt) dt).2) n)
+          ((splitDelay tR (q * dt) dt).1 - t0idx))[q.toNat]
+        = cadd out[q.toNat] (rfftToHilbert tR 0 xf n)[t0idx] := by
+  rw [aligned_exact q dt hdt]
+  simp only [timeshift_zero xf freqs hlen, true_and]
+  have hl : (rfftToHilbert tR 0 xf n).length = n := rfftToHilbert_length _ _ _ _
+  refine ⟨by rw [place_length]; omega, by omega, by omega, ?_⟩
+  exact placement_t0 out _ q t0idx h0 (by rw [hl]; exact hfit) (by rw [hl]; exact ht0)
+
+/-! ## 6. Non-vacuity -/
+
+section examples
+example : (List.range 4).map (hilbertWeight 4) = [1, 2, 1, 0] := by decide
+example : (List.range 5).map (hilbertWeight 5) = [1, 2, 2, 0, 0] := by decide
+example : (List.range 1).map (hilbertWeight 1) = [1] := by decide
+example : (List.range 5).map (sgnSeq 5) = [0, 1, 1, -1, -1] := by decide
+example : (List.range 4).map (sgnSeq 4) = [0, 1, 0, -1] := by decide
+
+/-- rational scalars with exact floor/ceil (the trigonometric fields are placeholders: they are
+not used by `lenPulse`, `toneburst2Layout`, `splitDelay`, `place`) -/
+def tQ : RT ℚ :=
+  { sin := id, cos := id, pi := 3, ofNat := Nat.cast, ofInt := Int.cast, floor := Rat.floor,
+    ceil := Rat.ceil }
+
+-- 5 cycles at 5 MHz sampled at 100 MHz: 100 samples, made odd
+example : lenPulse tQ 5 5 (1/100) = 101 := by decide +kernel
+example : toneburst2Layout tQ 5 5 (1/100) 2 3 = (606, 252) := by decide +kernel
+example : splitDelay tQ (7/2) (1/2) = (7, 0) := by decide +kernel
+example : splitDelay tQ (15/4) (1/2) = (7, 1/4) := by decide +kernel
+example : (toneburst tQ 0 5 5 (1/100) 300 true).length = 300 := toneburst_length ..
+example : (toneburst tQ 0 5 5 (1/100) 300 true)[0]'(by rw [toneburst_length]; decide)
+    = pulse tQ 5 5 (1/100) (lenPulse tQ 5 5 (1/100) / 2) :=
+  toneburst_wrap_zero tQ 0 5 5 (1/100) 300 (by decide +kernel)
+
+-- placement on rational data
+example : place [((1:ℚ), (0:ℚ)), (2, 0), (3, 0), (4, 0)] [(10, 1), (20, 2)] 1
+    = [(1, 0), (12, 1), (23, 2), (4, 0)] := by decide +kernel
+example : place [((1:ℚ), (0:ℚ)), (2, 0), (3, 0), (4, 0)] [(10, 1), (20, 2)] 2
+    = [(1, 0), (2, 0), (13, 1), (24, 2)] := by decide +kernel
+-- does not fit: unchanged
+example : place [((1:ℚ), (0:ℚ)), (2, 0), (3, 0), (4, 0)] [(10, 1), (20, 2)] 3
+    = [(1, 0), (2, 0), (3, 0), (4, 0)] := by decide +kernel
+-- negative start: counted from the end
+example : place [((1:ℚ), (0:ℚ)), (2, 0), (3, 0), (4, 0)] [(10, 1), (20, 2)] (-3)
+    = [(1, 0), (12, 1), (23, 2), (4, 0)] := by decide +kernel
+-- straddling index 0: rejected
+example : place [((1:ℚ), (0:ℚ)), (2, 0), (3, 0), (4, 0)] [(10, 1), (20, 2)] (-1)
+    = [(1, 0), (2, 0), (3, 0), (4, 0)] := by decide +kernel
+-- time zero of the response (index 1) lands on output sample q = 2
+example : (place [((1:ℚ), (0:ℚ)), (2, 0), (3, 0), (4, 0)] [(10, 1), (20, 2)] (2 - 1))[2]?
+    = some (23, 2) := by decide +kernel
+
+-- the real theorems instantiated
+example : pulse tR 5 5 (1/100) (lenPulse tR 5 5 (1/100) / 2) = (1, 0) := pulse_peak 5 5 (1/100)
+example : hann tR 7 3 = 1 := hann_centre 7 (by norm_num)
+example : hann tR 7 0 = 0 ∧ hann tR 7 6 = 0 := hann_ends 7 (by norm_num)
+example : splitDelay tR ((7 : ℤ) * (1/2 : ℝ)) (1/2) = (7, 0) := aligned_exact 7 (1/2) (by norm_num)
+
+/-- the half spectrum of a real signal, as `rfft` returns it -/
+noncomputable def rfftR (x : ℕ → ℝ) (n : ℕ) : List (Cx ℝ) :=
+  (List.range (n / 2 + 1)).map (fun k =>
+    ((C10.dft (fun l => (x l : ℂ)) n k).re, (C10.dft (fun l => (x l : ℂ)) n k).im))
+
+/-- the hypothesis of `rfftToHilbert_real_part` is satisfiable for every real signal -/
+theorem rfftR_spec (x : ℕ → ℝ) (n k : ℕ) (hk : 2 * k ≤ n) :
+    toC ((rfftR x n).getD k (0, 0)) = C10.dft (fun l => (x l : ℂ)) n k := by
+  rw [getD_of_lt _ k (by simp [rfftR]; omega)]
+  simp [rfftR, toC]
+
+example (x : ℕ → ℝ) (n j : ℕ) (hj : j < n) :
+    ((rfftToHilbert tR 0 (rfftR x n) n)[j]'(by rw [rfftToHilbert_length]; exact hj)).1 = x j :=
+  rfftToHilbert_real_part x (rfftR x n) n j hj (fun k hk => rfftR_spec x n k hk)
+
+/-- the frequency grid `f_k = k/(n dt)`, `k < L` -/
+noncomputable def freqGrid (n : ℕ) (dt : ℝ) (L : ℕ) : List ℝ :=
+  (List.range L).map (fun (k : ℕ) => (k : ℝ) / (n * dt))
+
+-- delaying by `m` samples through the spectrum shifts the analytic signal circularly
+example (x : ℕ → ℝ) (n j : ℕ) (hj : j < n) (dt : ℝ) (hdt : dt ≠ 0) (m : ℤ)
+    (hjm : (((j : ℤ) - m) % n).toNat < n) :
+    ((rfftToHilbert tR 0 (timeshift tR (rfftR x n) (freqGrid n dt (n / 2 + 1)) (m * dt)) n)[j]'(by
+        rw [rfftToHilbert_length]; exact hj)).1 = x (((j : ℤ) - m) % n).toNat := by
+  rw [hilbert_shift (rfftR x n) (freqGrid n dt (n / 2 + 1)) n dt hdt m (by simp [rfftR, freqGrid])
+    (by intro k h; simp only [freqGrid, List.getElem_map, List.getElem_range]) j hj]
+  exact rfftToHilbert_real_part x (rfftR x n) n _ hjm (fun k hk => rfftR_spec x n k hk)
+end examples
 end Arim.C11
